@@ -24,6 +24,9 @@ type c17Params struct {
 	PreReset int       `json:"prereset"` // entities created (and Reset away) in the receiving world before the load
 	ViaJSON  bool      `json:"viajson"`  // pass the dump through JSON
 	H2       []c17Step `json:"h2"`
+	// Mid: further history of the SOURCE world between the dump and the load. The loaded world
+	// must reproduce the state of dump time (the dump is a value, not a view).
+	Mid []c17Step `json:"mid,omitempty"`
 }
 
 func c17Config() core.SimConfig {
@@ -83,6 +86,11 @@ func dumpLoadContinuationBody(sim *core.Sim, p *c17Params, cs *core.Case) {
 			c17Fail(sim, "the refused LoadEntities changed the world: %v", err)
 			return
 		}
+	}
+	// 1b. delayed load: the source goes on after the dump; the dump must not change with it
+	if len(p.Mid) > 0 {
+		delayedLoad(sim, p, &dump, cs)
+		return
 	}
 	// 2. transport
 	loadDump := dump
@@ -243,6 +251,66 @@ func dumpLoadContinuationBody(sim *core.Sim, p *c17Params, cs *core.Case) {
 	}
 }
 
+// delayedLoad: the source world changes after the dump was taken; a world loaded from the dump
+// afterwards must equal a world loaded from a deep copy made at dump time.
+func delayedLoad(sim *core.Sim, p *c17Params, dump *ecs.EntityDump, cs *core.Case) {
+	A := sim.B.W
+	ref := ecs.EntityDump{Entities: append([]ecs.Entity{}, dump.Entities...), Alive: append([]uint32{}, dump.Alive...), Next: dump.Next, Available: dump.Available}
+	aliveAt := map[ecs.Entity]bool{}
+	alive := []ecs.Entity{}
+	for ord, h := range sim.B.H {
+		aliveAt[h] = sim.M.Ents[ord].Alive
+		if sim.M.Ents[ord].Alive {
+			alive = append(alive, h)
+		}
+	}
+	for _, st := range p.Mid {
+		switch st.K {
+		case "new":
+			alive = append(alive, A.NewEntity())
+		case "batch":
+			q := ecs.NewBuilder(A).NewBatchQ(st.N%5 + 1)
+			for q.Next() {
+				alive = append(alive, q.Entity())
+			}
+		case "rm":
+			if len(alive) > 0 {
+				k := st.N % len(alive)
+				A.RemoveEntity(alive[k])
+				alive = append(alive[:k], alive[k+1:]...)
+			}
+		}
+	}
+	lw := ecs.NewWorld(ecs.NewConfig().WithCapacityIncrement(p.Cap))
+	rw := ecs.NewWorld(ecs.NewConfig().WithCapacityIncrement(p.Cap))
+	L, R := &lw, &rw
+	L.LoadEntities(dump)
+	R.LoadEntities(&ref)
+	for h, want := range aliveAt {
+		if L.Alive(h) != want {
+			c17Fail(sim, "a world loaded from a dump after the source world went on: Alive(%v)=%v, at dump time it was %v (the dump changed with the source world)", h, L.Alive(h), want)
+			return
+		}
+	}
+	dl, dr := L.DumpEntities(), R.DumpEntities()
+	if msg := sameDump(&dl, &dr); msg != "" {
+		c17Fail(sim, "a dump loaded after the source world went on differs from a copy of it made at dump time: %s", msg)
+		return
+	}
+	for i := 0; i < 12; i++ {
+		if a, b := L.NewEntity(), R.NewEntity(); a != b {
+			c17Fail(sim, "after a delayed load, creation %d issues %v; a world loaded from a copy made at dump time issues %v", i, a, b)
+			return
+		}
+	}
+	if cs != nil {
+		cs.Label("delayed load (source changed after the dump)")
+		if dump.Available >= 1 {
+			cs.NonTrivial()
+		}
+	}
+}
+
 func entityJSONRoundTrip(t *testing.T, st *core.Stats) {
 	// handles survive a JSON round trip unchanged, for arbitrary (id, generation)
 	rapid.Check(t, func(rt *rapid.T) {
@@ -282,7 +350,7 @@ func TestC17(t *testing.T) {
 		Once: func(t *testing.T, st *core.Stats) {
 			t.Run("json", func(t *testing.T) { entityJSONRoundTrip(t, st) })
 		},
-		Rule: "pre-history of single and batch creations, removals, RemoveEntities and Reset (any free-list shape) on a world of generated capacity increment; then DumpEntities, optionally through encoding/json, LoadEntities into a fresh or a used-and-reset world of another generated capacity increment; then a generated continuation of NewEntity, NewBatchQ(n) and RemoveEntity applied to both worlds; oracle: Alive equal for every handle issued since the source's last reset and for all later ones after every continuation step, handles issued during the continuation identical in both worlds and never issued before, the loaded world's dump equals the source's (Entities, Next, Available, alive ids as a set) before and after the continuation, used count equal, loading into the non-empty source world panics and changes nothing; separately, Entity JSON round trips for arbitrary (id, generation); non-trivial = free list of length >= 2 at dump time and a continuation that creates more entities than the free list holds",
+		Rule: "pre-history of single and batch creations, removals, RemoveEntities and Reset (any free-list shape) on a world of generated capacity increment; then DumpEntities, optionally through encoding/json, LoadEntities into a fresh or a used-and-reset world of another generated capacity increment; then a generated continuation of NewEntity, NewBatchQ(n) and RemoveEntity applied to both worlds; oracle: Alive equal for every handle issued since the source's last reset and for all later ones after every continuation step, handles issued during the continuation identical in both worlds and never issued before, the loaded world's dump equals the source's (Entities, Next, Available, alive ids as a set) before and after the continuation, used count equal, loading into the non-empty source world panics and changes nothing; in a quarter of the cases the source world goes on (creations/removals) between the dump and the load, and the loaded world must equal one loaded from a deep copy taken at dump time; separately, Entity JSON round trips for arbitrary (id, generation); non-trivial = free list of length >= 2 at dump time and a continuation that creates more entities than the free list holds",
 		Finish: func(rt *rapid.T, sim *core.Sim, tr *tracker) {
 			p := &c17Params{
 				Cap:      rapid.SampledFrom([]int{1, 2, 3, 8, 128}).Draw(rt, "loadcap"),
@@ -293,6 +361,12 @@ func TestC17(t *testing.T) {
 			for i := 0; i < n; i++ {
 				k := rapid.SampledFrom([]string{"new", "new", "new", "batch", "batch", "rm", "rm"}).Draw(rt, "h2k")
 				p.H2 = append(p.H2, c17Step{K: k, N: rapid.IntRange(0, 20).Draw(rt, "h2n")})
+			}
+			if rapid.IntRange(0, 3).Draw(rt, "delayed") == 0 {
+				nm := rapid.IntRange(1, 12).Draw(rt, "nmid")
+				for i := 0; i < nm; i++ {
+					p.Mid = append(p.Mid, c17Step{K: rapid.SampledFrom([]string{"new", "batch", "rm", "rm", "rm"}).Draw(rt, "midk"), N: rapid.IntRange(0, 20).Draw(rt, "midn")})
+				}
 			}
 			sim.ReplayExtra = p
 			tr.cs.Feed(fmt.Sprintf("%+v", *p))
